@@ -176,6 +176,32 @@ theorem former_witnesses_accepted :
     identifier javaClasses (utf16 (escapeId [65, 178])) = some ([65, 178], []) := by
   decide +kernel
 
+/-! ## identifiers inside IR heads -/
+
+/-- **`TableOrderBy` sort fields** (`escape_id(order + f)`): the direction letter (`A` = 65, `D` = 68) and the field name travel
+in ONE identifier token, so the engine's `sort_field` (`identifier(it)`, then `substring(0, 1)` / `substring(1)`) recovers the
+direction and exactly the name — whatever the name is (quoted or not, astral characters as surrogate pairs). -/
+theorem sort_field_one_token (jc : JavaClasses) (hj : AsciiIdent jc) (d : Nat) (hd : d = 65 ∨ d = 68) (name : Str)
+    (hname : ValidStr name) (rest : Str) (hrest : ∀ p r, rest = p :: r → jc.part p = false) :
+    identifier jc (utf16 (escapeId (d :: name)) ++ rest) = some (d :: utf16 name, rest) := by
+  have hv : ValidStr (d :: name) := by
+    intro c hc
+    rcases List.mem_cons.1 hc with rfl | hc
+    · rcases hd with h | h <;> subst h <;> decide
+    · exact hname c hc
+  have := engine_accepts_escape_id jc hj (d :: name) hv rest hrest
+  have hu : utf16 (d :: name) = d :: utf16 name := by
+    have : ¬ 65536 ≤ d := by rcases hd with h | h <;> omega
+    simp [utf16, this]
+  rw [hu] at this
+  exact this
+
+-- the shape the engine must NOT see: the letter outside the backtick literal is a token of its own
+example : identifier javaClasses (utf16 (65 :: escapeId (cp% "sample id"))) = some ([65], utf16 (escapeId (cp% "sample id"))) := by
+  decide +kernel
+example : identifier javaClasses (utf16 (escapeId (65 :: cp% "sample id"))) = some (65 :: cp% "sample id", []) := by
+  decide +kernel
+
 /-! ## Non-vacuity: concrete types and names at the boundaries -/
 
 -- struct{`é x`: int32, a: array<str>}: a Latin-1 name with a space, printed with \u00e9
